@@ -64,7 +64,7 @@ int gf_invert_matrix(unsigned char *in, unsigned char *out, const int n) {
     setup();
     const char *f = getenv("VERIF_ISAL_FAIL_INVERT");
     int call = invert_calls++;
-    if (f && atoi(f) == call) return -1;
+    if (f && (!strcmp(f, "all") || atoi(f) == call)) return -1;
     memset(out, 0, (size_t)n * n);
     for (int i = 0; i < n; i++) out[i * n + i] = 1;
     for (int i = 0; i < n; i++) {
